@@ -1452,11 +1452,13 @@ vbi_caption_channel_switched(vbi_decoder *vbi)
 		ch->attr.foreground = VBI_WHITE;
 		ch->attr.background = VBI_BLACK;
 
+		/* Before set_cursor(), which points ch->line
+		   into the hidden page. */
+		ch->hidden = 0;
+
 		set_cursor(ch, 1, ch->row);
 
 		ch->time = 0.0;
-
-		ch->hidden = 0;
 
 		ch->pg[0].dirty.y0 = 0;
 		ch->pg[0].dirty.y1 = ROWS - 1;
